@@ -8,58 +8,80 @@ namespace BV.C11
 open BV
 
 /-- a value emits exactly `w` bytes -/
-theorem wordBytes_length (w : Nat) (little : Bool) (v : Int) : (wordBytes w little v).length = w := by
-  sorry
+theorem wordBytes_length (w : Nat) (little : Bool) (v : Int) : (wordBytes w little v).length = w :=
+  DataLemmas.wordBytes_length w little v
 
 /-- … namely the value reduced modulo `2^(8w)`: negative and oversized values wrap -/
 theorem wordBytes_mod (w : Nat) (little : Bool) (v : Int) :
-    wordBytes w little v = wordBytes w little (v % (2 : Int) ^ (8 * w)) := by
-  sorry
+    wordBytes w little v = wordBytes w little (v % (2 : Int) ^ (8 * w)) :=
+  DataLemmas.wordBytes_mod w little v
 
 /-- little endian: byte `j` is byte `j` of the value; big endian: byte `j` is byte `w-1-j` -/
 theorem wordBytes_little (w : Nat) (v : Int) (j : Nat) (hj : j < w) :
-    (wordBytes w true v)[j]? = some (byteAt v j) := by
-  sorry
+    (wordBytes w true v)[j]? = some (byteAt v j) :=
+  DataLemmas.wordBytes_little w v j hj
 theorem wordBytes_big (w : Nat) (v : Int) (j : Nat) (hj : j < w) :
-    (wordBytes w false v)[j]? = some (byteAt v (w - 1 - j)) := by
-  sorry
+    (wordBytes w false v)[j]? = some (byteAt v (w - 1 - j)) :=
+  DataLemmas.wordBytes_big w v j hj
 
 /-- the bytes are the base-256 digits of `v mod 2^(8w)` -/
 theorem wordBytes_value (w : Nat) (v : Int) :
-    ((wordBytes w true v).foldr (fun (b : Nat) (acc : Int) => (b : Int) + 256 * acc) (0 : Int)) = v % (2 : Int) ^ (8 * w) := by
-  sorry
+    ((wordBytes w true v).foldr (fun (b : Nat) (acc : Int) => (b : Int) + 256 * acc) (0 : Int)) = v % (2 : Int) ^ (8 * w) :=
+  DataLemmas.wordBytes_value w v
 
 /-- a data directive emits `w` bytes per listed value, in list order -/
 theorem data_bytes (cfg : Cfg) (L : Labels) (p : Placed) (w : Nat) (vals : List E) (vs : List Int)
     (hs : p.line.stmt = .data w vals)
     (hv : vals.mapM (valueE (envOf L cfg.regs p.line.scope)) = .ok vs) :
     lineBytes cfg L p = .ok (vs.flatMap (wordBytes w cfg.little)) := by
-  sorry
+  unfold lineBytes
+  simp only [hs, hv]
+  rfl
 
 theorem data_length (cfg : Cfg) (L : Labels) (p : Placed) (w : Nat) (vals : List E) (bs : List Nat)
     (hs : p.line.stmt = .data w vals) (hb : lineBytes cfg L p = .ok bs) : bs.length = w * vals.length := by
-  sorry
+  unfold lineBytes at hb
+  simp only [hs] at hb
+  cases hv : vals.mapM (valueE (envOf L cfg.regs p.line.scope)) with
+  | error e => simp [hv, bind, Except.bind] at hb
+  | ok vs =>
+    simp only [hv, bind, Except.bind, Except.ok.injEq] at hb
+    subst hb
+    rw [DataLemmas.flatMap_wordBytes_length, DataLemmas.mapM_ok_length _ _ _ hv]
 
 /-- `.fill n, v` emits `n` copies of the low byte of `v` -/
 theorem fill_bytes (cfg : Cfg) (L : Labels) (p : Placed) (cnt val : E) (v : Int)
     (hs : p.line.stmt = .fill cnt val) (hv : valueE (envOf L cfg.regs p.line.scope) val = .ok v) :
     lineBytes cfg L p = .ok (List.replicate p.size.toNat ((v % 256).toNat)) := by
-  sorry
+  unfold lineBytes
+  simp only [hs, hv, ← DataLemmas.byteAt_zero]
+  rfl
 
 /-- `.zerountil` emits zeros only -/
 theorem zerountil_bytes (cfg : Cfg) (L : Labels) (p : Placed) (a : E) (hs : p.line.stmt = .zerountil a) :
     lineBytes cfg L p = .ok (List.replicate p.size.toNat 0) := by
-  sorry
+  unfold lineBytes
+  simp only [hs]
 
 /-- a quoted string emits one byte per character after escape processing, then the terminator -/
 theorem str_bytes (cfg : Cfg) (L : Labels) (p : Placed) (raw : String) (term : Option Nat)
     (hs : p.line.stmt = .str raw term) :
     lineBytes cfg L p = .ok ((unescape raw.toList).map (· % 256) ++ term.toList.map (· % 256)) := by
-  sorry
+  unfold lineBytes
+  simp only [hs]
 
 /-- escape processing: text without a backslash is taken character by character -/
 theorem unescape_plain (cs : List Char) (h : ∀ c ∈ cs, c ≠ '\\') : unescape cs = cs.map Char.toNat := by
-  sorry
+  induction cs with
+  | nil => simp [unescape]
+  | cons c rest ih =>
+    have hc : c ≠ '\\' := h c (by simp)
+    have := ih (fun x hx => h x (by simp [hx]))
+    rw [unescape.eq_def]
+    split
+    · simp_all
+    · simp_all
+    · simp_all
 
 theorem unescape_simple_escapes (rest : List Char) :
     unescape ('\\' :: 'n' :: rest) = 10 :: unescape rest ∧
@@ -68,15 +90,15 @@ theorem unescape_simple_escapes (rest : List Char) :
     unescape ('\\' :: '\\' :: rest) = 92 :: unescape rest ∧
     unescape ('\\' :: '"' :: rest) = 34 :: unescape rest ∧
     unescape ('\\' :: '\'' :: rest) = 39 :: unescape rest := by
-  sorry
+  refine ⟨?_, ?_, ?_, ?_, ?_, ?_⟩ <;> rw [unescape]
 
 theorem unescape_hex (h1 h2 : Char) (rest : List Char) (hh1 : isHexDigit h1 = true) (hh2 : isHexDigit h2 = true) :
     unescape ('\\' :: 'x' :: h1 :: h2 :: rest) = (hexVal h1 * 16 + hexVal h2) :: unescape rest := by
-  sorry
+  rw [unescape]; simp [hh1, hh2]
 
 /-- the number of emitted characters never exceeds the number of source characters -/
 theorem unescape_length_le (cs : List Char) : (unescape cs).length ≤ cs.length := by
-  sorry
+  fun_induction unescape cs <;> simp_all <;> omega
 
 /-- non-vacuity -/
 example : wordBytes 2 false (-2) = [255, 254] ∧ wordBytes 2 true 0x12345 = [0x45, 0x23] := by decide +kernel
